@@ -406,9 +406,15 @@ Proof.
   split; [apply ex_only_cond|]. split; [vm_compute; reflexivity|]. vm_compute. discriminate.
 Qed.
 
-(** the guarded theorem is not vacuous: on this index the guard is off; the first
-    lookup tries three candidates and stops at  /foo/:x  (no backtracking), the
-    second falls from  /foo/**  (backtracking allowed) to  /**  *)
+(** after fix e897fef ([find_in false]) the same lookup answers "no rule" *)
+Example F1_fixed_example :
+  find_in false (load ex_any F1_adds) (ex_str "/foo/bar/baz") (ex_only [2]) = NoMatch /\
+  spec_lookup (load ex_any F1_adds) (ex_str "/foo/bar/baz") (ex_only [2]) = NoMatch.
+Proof. vm_compute. split; reflexivity. Qed.
+
+(** the theorems are not vacuous: on this index the first lookup tries three
+    candidates and stops at  /foo/:x  (no backtracking), the second falls from
+    /foo/**  (backtracking allowed) to  /**  — pinned and current code alike (the C02-F1 guard is off) *)
 Definition NV_adds : list (addop nat) :=
   [ex_add "/foo/**" 1 true; ex_add "/**" 2 true; ex_add "/foo/:x" 3 false; ex_add "/foo/bar" 4 true].
 
@@ -418,4 +424,11 @@ Example nonvacuous :
   guard_F1 (load ex_any NV_adds) (ex_str "/foo/bar/baz") (ex_only [2]) = false /\
   find_in true (load ex_any NV_adds) (ex_str "/foo/bar/baz") (ex_only [2])
   = Found 2 [ex_str "*"] [ex_str "foo/bar/baz"].
+Proof. vm_compute. repeat split. Qed.
+
+Example nonvacuous_current :
+  find_in false (load ex_any NV_adds) (ex_str "/foo/bar") (ex_only [2]) = NoMatch /\
+  find_in false (load ex_any NV_adds) (ex_str "/foo/bar/baz") (ex_only [2])
+  = Found 2 [ex_str "*"] [ex_str "foo/bar/baz"] /\
+  find_in false (load ex_any NV_adds) (ex_str "/foo/bar") (ex_only [1; 2; 3; 4]) = Found 4 [] [].
 Proof. vm_compute. repeat split. Qed.
